@@ -424,13 +424,13 @@ CondStep(in, st, c) ==
 (* ------------------------------ spends ---------------------------------- *)
 CoinIdOf(parent, ph, amountAtom) == SHA256(parent \o ph \o amountAtom)
 
-NewCur(in, parent, ph, amt, id) ==
+NewCur(in, parent, ph, amt, id, ecost) ==
   [parent |-> parent, ph |-> ph, amt |-> amt, id |-> id,
    hr |-> None, sr |-> None, bhr |-> None, bsr |-> None, bh |-> None, bs |-> None, cc |-> {},
    agg |-> [me |-> <<>>, parent |-> <<>>, puzzle |-> <<>>, amount |-> <<>>, puzzle_amount |-> <<>>,
             parent_amount |-> <<>>, parent_puzzle |-> <<>>],
    flags |-> IF Mempool(in) THEN ({DEDUP} \cup (IF IsOdd(amt) THEN {FF} ELSE {})) ELSE {},
-   ccost |-> Zero, ecost |-> in.clvm, counter |-> 0]
+   ccost |-> Zero, ecost |-> ecost, counter |-> 0]
 
 \* a spend is (parent puzzle-hash amount conditions . extra)
 BeginSpendStep(in, st, s) ==
@@ -443,7 +443,9 @@ BeginSpendStep(in, st, s) ==
        ELSE LET amt == Sanitize(a.a, 8).v
                 id == CoinIdOf(p.a, z.a, a.a)
             IN IF id \in RangeOf(st.ps.spentIds) THEN Fail(st, "DoubleSpend")
-               ELSE LET st1 == [st EXCEPT !.cur = NewCur(in, p.a, z.a, amt, id),
+               ELSE LET \* per-spend CLVM cost: one value for all spends (parse_spends) or one per spend (native generator path)
+                        ecost == IF "clvms" \in DOMAIN in THEN in.clvms[st.nspends + 1] ELSE in.clvm
+                        st1 == [st EXCEPT !.cur = NewCur(in, p.a, z.a, amt, id, ecost),
                                           !.ps.spentIds = Append(@, id),
                                           !.ps.spentPuzzles = @ \cup {z.a},
                                           !.ret.rem = Add(@, amt),
